@@ -75,8 +75,8 @@ func Linear(info *types.Info, e ast.Expr) (LinForm, bool) {
 	atom := func() (LinForm, bool) { return LinForm{Terms: map[string]int{types.ExprString(e): 1}}, true }
 	switch x := e.(type) {
 	case *ast.BasicLit:
-		if tv, ok := info.Types[x]; ok && tv.Value != nil && tv.Value.Kind() == constant.Int {
-			if v, exact := constant.Int64Val(tv.Value); exact {
+		if tv, ok := info.Types[x]; ok && tv.Value != nil && constant.ToInt(tv.Value).Kind() == constant.Int {
+			if v, exact := constant.Int64Val(constant.ToInt(tv.Value)); exact {
 				return LinForm{Terms: map[string]int{}, Const: v}, true
 			}
 		}
@@ -294,5 +294,47 @@ func (f *Fn) Narrowings(target string) []Narrowing {
 		out = append(out, nw)
 		return true
 	})
+	return out
+}
+
+// LinearCmpReal normalises a comparison over the reals: `A op B` becomes `form op' 0` with
+// op' ∈ {<, <=} and no integer folding of <= into < (for floating-point operands).  The result is
+// the form and the operator separately, so that complements can be compared:
+// ¬(F < 0) ≡ (-F <= 0).
+func LinearCmpReal(info *types.Info, e ast.Expr) (LinForm, string, bool) {
+	be, ok := ast.Unparen(e).(*ast.BinaryExpr)
+	if !ok {
+		return LinForm{}, "", false
+	}
+	a, ok1 := Linear(info, be.X)
+	b, ok2 := Linear(info, be.Y)
+	if !ok1 || !ok2 {
+		return LinForm{}, "", false
+	}
+	switch be.Op {
+	case token.LSS:
+		return a.add(b, -1), "<", true
+	case token.LEQ:
+		return a.add(b, -1), "<=", true
+	case token.GTR:
+		return b.add(a, -1), "<", true
+	case token.GEQ:
+		return b.add(a, -1), "<=", true
+	}
+	return LinForm{}, "", false
+}
+
+// Negate returns the complement of `form op 0` over the reals.
+func NegateReal(f LinForm, op string) (LinForm, string) {
+	if op == "<" {
+		return f.scale(-1), "<="
+	}
+	return f.scale(-1), "<"
+}
+
+// Subst replaces term by (term + k) in the form.
+func (l LinForm) Subst(term string, k int64) LinForm {
+	out := l.scale(1)
+	out.Const += int64(l.Terms[term]) * k
 	return out
 }
